@@ -1,0 +1,34 @@
+//go:build verif
+// +build verif
+
+package hotrestart
+
+import (
+	"net"
+	"syscall"
+)
+
+// This file is only compiled with -tags verif. Re-exports for the verification
+// harness under /verif; it adds no behaviour.
+
+// VerifSendMessage sends a frame of the given type and payload with sendMessage.
+func VerifSendMessage(conn *net.UnixConn, typ uint8, data []byte) error {
+	return sendMessage(conn, &message{Type: messageType(typ), Len: uint16(len(data)), Data: data})
+}
+
+// VerifReadMessage reads one frame with readMessage.
+func VerifReadMessage(conn *net.UnixConn) (typ uint8, length uint16, data []byte, err error) {
+	msg, err := readMessage(conn)
+	if err != nil {
+		return 0, 0, nil, err
+	}
+	return uint8(msg.Type), msg.Len, msg.Data, nil
+}
+
+// VerifSetKill replaces the function used to signal the own process on a
+// terminate request and returns the previous one.
+func VerifSetKill(f func(pid int, sig syscall.Signal) error) func(pid int, sig syscall.Signal) error {
+	old := kill
+	kill = f
+	return old
+}
